@@ -816,6 +816,8 @@ class Interp:
         if opname in ("le", "ge", "lt", "gt", "eq", "ne") and len(args) == 2 and all(_is_num(a) for a in args):
             import operator as _op
             return getattr(_op, opname)(args[0], args[1])
+        if opname in ("methodcaller", "attrgetter", "itemgetter") and args and (opname != "methodcaller" or isinstance(args[0], str)):
+            return BoundOp(opname, list(args))
         if opname in ("getitem", "contains") and len(args) == 2:
             return self.apply(BoundOp("__getitem__" if opname == "getitem" else "__contains__", args[0]), [args[1]], env, depth)
         if isinstance(c.func, ast.Name) and isinstance(env.get(c.func.id), BoundOp):
@@ -918,6 +920,8 @@ class Interp:
                 for a in args:
                     out_ += list(a.keys()) if isinstance(a, dict) else (sorted(a, key=repr) if isinstance(a, set) else list(a))
                 return out_
+            if nm in ("methodcaller", "attrgetter", "itemgetter") and nm not in env and args and not kwargs and (nm != "methodcaller" or isinstance(args[0], str)):
+                return BoundOp(nm, list(args))
             if nm == "map" and len(args) == 2 and isinstance(args[1], (list, set)) and nm not in env:
                 return [self.apply(args[0], [x], env, depth) for x in (args[1] if isinstance(args[1], list) else sorted(args[1], key=repr))]
             if nm == "filter" and len(args) == 2 and isinstance(args[1], list) and nm not in env and args[0] is not None:
@@ -997,8 +1001,10 @@ class Interp:
                 return UNKNOWN
             if nm == "id" and len(args) == 1 and isinstance(args[0], Sym):
                 return "id:" + args[0].tag
-            if nm == "accumulate" and len(args) == 1 and isinstance(args[0], list) and all(_is_num(x) for x in args[0]):
-                acc_, res_ = 0, []
+            if nm == "accumulate" and len(args) == 1 and isinstance(args[0], list) and all(_is_num(x) for x in args[0]) \
+                    and set(kwargs) <= {"initial"} and (not kwargs or _is_num(kwargs["initial"]) or kwargs["initial"] is None):
+                init_ = kwargs.get("initial")
+                acc_, res_ = (init_ if init_ is not None else 0), ([init_] if init_ is not None else [])
                 for x in args[0]:
                     acc_ = acc_ + x
                     res_.append(acc_)
@@ -1238,6 +1244,22 @@ def _install():
         """call a callable value (closure, lambda, symbolic callable) on interpreted arguments"""
         if isinstance(fv, LocalFn):
             return self.call_local(fv, args, {}, depth, env)
+        if isinstance(fv, BoundOp) and len(args) == 1 and fv.kind == "methodcaller":
+            name_, margs = fv.target[0], fv.target[1:]
+            env2 = {"__recv": args[0]}
+            nodes_ = []
+            for i_, a_ in enumerate(margs):
+                env2[f"__a{i_}"] = a_
+                nodes_.append(ast.Name(id=f"__a{i_}", ctx=ast.Load()))
+            fake = ast.Call(func=ast.Attribute(value=ast.Name(id="__recv", ctx=ast.Load()), attr=name_, ctx=ast.Load()), args=nodes_, keywords=[])
+            return self.ev(ast.fix_missing_locations(fake), env2, depth)
+        if isinstance(fv, BoundOp) and len(args) == 1 and fv.kind == "attrgetter" and len(fv.target) == 1 and isinstance(fv.target[0], str):
+            node_: ast.AST = ast.Name(id="__recv", ctx=ast.Load())
+            for part in fv.target[0].split("."):
+                node_ = ast.Attribute(value=node_, attr=part, ctx=ast.Load())
+            return self.ev(ast.fix_missing_locations(node_), {"__recv": args[0]}, depth)
+        if isinstance(fv, BoundOp) and len(args) == 1 and fv.kind == "itemgetter" and len(fv.target) == 1:
+            return self.apply(BoundOp("__getitem__", args[0]), [fv.target[0]], env, depth)
         if isinstance(fv, BoundOp) and len(args) == 1:
             if fv.kind == "__getitem__":
                 node = ast.Subscript(value=ast.Name(id="__b", ctx=ast.Load()), slice=ast.Name(id="__i", ctx=ast.Load()), ctx=ast.Load())
